@@ -60,4 +60,21 @@ def reply (m : Json) (s : Option Json := none) : Json :=
   | some s => Json.mkObj [("m", m), ("s", s)]
   | none => Json.mkObj [("m", m)]
 
+/-- the driver loop: one JSON case per line on stdin (fields "op" and the case), one JSON reply per line on stdout -/
+partial def loop (handle : String → Json → Except String Json) (h : IO.FS.Stream) (out : IO.FS.Stream) : IO Unit := do
+  let line ← h.getLine
+  if line.isEmpty then return ()
+  let l := line.trimAscii.toString
+  if l.isEmpty then loop handle h out else
+  let r : Json := match Json.parse l with
+    | .error e => Json.mkObj [("err", Json.str s!"parse: {e}")]
+    | .ok j => match (do let op ← getStr j "op"; handle op j) with
+      | .ok v => v
+      | .error e => Json.mkObj [("err", Json.str e)]
+  out.putStrLn r.compress
+  loop handle h out
+
+def mainLoop (handle : String → Json → Except String Json) : IO Unit := do
+  loop handle (← IO.getStdin) (← IO.getStdout)
+
 end Proto
